@@ -190,7 +190,11 @@ func (ex *Exec) evalCall(e *ast.CallExpr) []Val {
 			rv := ex.evalRecv(sel, sig)
 			recv = &rv
 		}
-		args := ex.evalArgs(e.Args, sig, e.Ellipsis.IsValid())
+		argSig := sig
+		if isig, ok := info.TypeOf(fun).(*types.Signature); ok && sig.TypeParams().Len() > 0 {
+			argSig = isig // instantiated signature of a generic function
+		}
+		args := ex.evalArgs(e.Args, argSig, e.Ellipsis.IsValid())
 		return ex.dispatch(e, callee, recv, args, resTypes)
 	}
 	// function value: closure, contracted parameter, or unknown
@@ -277,9 +281,13 @@ func (ex *Exec) dispatch(e *ast.CallExpr, callee *types.Func, recv *Val, args []
 	// dynamic dispatch on interface methods when the dynamic type is known
 	if recv != nil && isInterface(sig.Recv().Type()) {
 		if dt, ok := ex.dynType[recv.T.String()]; ok {
-			if m := lookupMethod(dt, callee.Name()); m != nil {
+			if m, path := lookupMethod(dt, callee.Name()); m != nil {
 				r := Val{recv.T, dt}
+				if len(path) > 1 {
+					r = ex.fieldPath(r, path[:len(path)-1], "recv")
+				}
 				if isInterface(m.Type().(*types.Signature).Recv().Type()) {
+					ex.assert("S", "nil[embedded receiver of "+callee.Name()+"]", Ne(r.T, I(0)))
 					return ex.dispatch(e, m, &r, args, resTypes)
 				}
 				rv := ex.adjustRecv(r, m.Type().(*types.Signature))
@@ -317,15 +325,15 @@ func (ex *Exec) adjustRecv(r Val, sig *types.Signature) Val {
 	return r
 }
 
-func lookupMethod(t types.Type, name string) *types.Func {
+func lookupMethod(t types.Type, name string) (*types.Func, []int) {
 	ms := types.NewMethodSet(t)
 	for i := 0; i < ms.Len(); i++ {
 		if ms.At(i).Obj().Name() == name {
 			f, _ := ms.At(i).Obj().(*types.Func)
-			return f
+			return f, ms.At(i).Index()
 		}
 	}
-	return nil
+	return nil, nil
 }
 
 func funcKey(f *types.Func) string {
@@ -419,6 +427,8 @@ func (ex *Exec) inlineBody(name string, sig *types.Signature, ftype *ast.FuncTyp
 	}
 	fr := &frame{sig: sig, fnName: name}
 	info := pkg.TypesInfo
+	ex.nInline++
+	inl := ex.nInline
 	// receiver
 	if recvFields != nil && recv != nil && len(recvFields.List) > 0 && len(recvFields.List[0].Names) > 0 {
 		ex.define(recvFields.List[0].Names[0], *recv)
@@ -443,7 +453,7 @@ func (ex *Exec) inlineBody(name string, sig *types.Signature, ftype *ast.FuncTyp
 		for _, fld := range ftype.Results.List {
 			t := info.TypeOf(fld.Type)
 			if len(fld.Names) == 0 {
-				k := fmt.Sprintf("$res%d.%d", ri, len(ex.frames))
+				k := fmt.Sprintf("$res%d.%d", ri, inl)
 				ex.heapSort[k] = sortOf(t)
 				ex.keyType[k] = t
 				ex.st.env[k] = ex.zeroValue(t)
@@ -455,7 +465,7 @@ func (ex *Exec) inlineBody(name string, sig *types.Signature, ftype *ast.FuncTyp
 			for _, n := range fld.Names {
 				fr.named = true
 				if n.Name == "_" {
-					k := fmt.Sprintf("$res%d.%d", ri, len(ex.frames))
+					k := fmt.Sprintf("$res%d.%d", ri, inl)
 					ex.heapSort[k] = sortOf(t)
 					ex.st.env[k] = ex.zeroValue(t)
 					fr.resKeys = append(fr.resKeys, k)
@@ -490,6 +500,12 @@ func (ex *Exec) inlineBody(name string, sig *types.Signature, ftype *ast.FuncTyp
 			t = ex.zeroValue(fr.resTyps[j])
 		}
 		out = append(out, Val{t, fr.resTyps[j]})
+	}
+	for _, k := range fr.resKeys {
+		if strings.HasPrefix(k, "$res") {
+			delete(ex.st.env, k)
+			delete(ex.heapSort, k)
+		}
 	}
 	ex.lastFrame = fr
 	if newCode {
@@ -628,8 +644,6 @@ func (ex *Exec) callByContract(fc *FuncContract, callee *types.Func, sig *types.
 			ex.assumptions["call to "+cname+" writes a slice whose owner could not be determined at "+ex.posString(ex.curPos)] = true
 		}
 	}
-	// frame: modifies and allocates
-	ex.applyFrame(sc, fc.Modifies, fc.Allocates, pk)
 	// results
 	var resNames []string
 	resNames = append(resNames, fc.Results...)
@@ -642,15 +656,19 @@ func (ex *Exec) callByContract(fc *FuncContract, callee *types.Func, sig *types.
 		}
 		v := ex.fresh("r."+callee.Name(), sortOf(rt))
 		ex.assume(ex.typeFact(rt, v))
-		if isPointer(rt) || isInterface(rt) {
-			ex.assume(Lt(v, ex.get(ex.st, "$alloc")))
-		}
 		out = append(out, Val{v, rt})
 		if rn != "" && rn != "_" {
 			sc.vars[rn] = Val{v, rt}
 		}
 		if sig.Results().Len() == 1 {
 			sc.vars["result"] = Val{v, rt}
+		}
+	}
+	// frame: modifies and allocates
+	ex.applyFrame(sc, fc.Modifies, fc.Allocates, pk)
+	for _, v := range out {
+		if isPointer(v.Typ) || isInterface(v.Typ) {
+			ex.assume(Lt(v.T, ex.get(ex.st, "$alloc")))
 		}
 	}
 	sc.st = ex.st
@@ -736,6 +754,7 @@ func (ex *Exec) applyFrame(sc *specCtx, modifies []*Clause, allocates []string, 
 			}
 		}
 		ex.assume(Forall([]string{"p"}, Imp(And(conds...), Eq(Select(na, p), Select(cur, p))), Select(na, p)))
+		ex.heapWF(k, na, false)
 		ex.st.env[k] = na
 	}
 }
@@ -846,7 +865,10 @@ func (ex *Exec) builtin(name string, e *ast.CallExpr) []Val {
 	case "new":
 		t := ex.typeOf(e.Args[0])
 		ref := ex.alloc("new")
-		if st := structOf(t); st != nil && !isPointer(t) {
+		if types.TypeString(t, nil) == "sync/atomic.Int32" {
+			ex.ensureHeap("$G.atomic32", SInt)
+			ex.st.env["$G.atomic32"] = Store(ex.get(ex.st, "$G.atomic32"), ref, I(0))
+		} else if st := structOf(t); st != nil && !isPointer(t) {
 			ex.storeStructValue(ref, t, ex.zeroValue(t))
 		} else {
 			k := ex.ptrHeapKey(t)
@@ -894,11 +916,11 @@ func (ex *Exec) builtinMake(e *ast.CallExpr) Val {
 	case *types.Slice:
 		n := ex.eval(e.Args[1])
 		c := n.T
-		ex.assert("S", "make-size["+exprString(e)+"]", And(Le(I(0), n.T), Le(n.T, pow2(40))))
+		ex.assert("S", "make-size["+exprString(e)+"]", And(Le(I(0), n.T), Le(n.T, pow2(48))))
 		if len(e.Args) > 2 {
 			cv := ex.eval(e.Args[2])
 			c = cv.T
-			ex.assert("S", "make-cap["+exprString(e)+"]", And(Le(n.T, c), Le(c, pow2(40))))
+			ex.assert("S", "make-cap["+exprString(e)+"]", And(Le(n.T, c), Le(c, pow2(48))))
 		}
 		base := ex.fresh("make", SInt)
 		fn, srt := memFn(u.Elem())
@@ -927,7 +949,7 @@ func (ex *Exec) appendSlices(s, t *T, elem types.Type) *T {
 	k := Const("k", SInt)
 	ex.assume(And(Lt(I(1), base), Le(n, c), Le(c, pow2(48)),
 		Forall([]string{"k"}, Imp(And(Le(I(0), k), Lt(k, SLen(s))), Eq(App(fn, srt, base, k), App(fn, srt, SBase(s), Add(SOff(s), k)))), App(fn, srt, base, k)),
-		Forall([]string{"k"}, Imp(And(Le(I(0), k), Lt(k, SLen(t))), Eq(App(fn, srt, base, Add(SLen(s), k)), App(fn, srt, SBase(t), Add(SOff(t), k)))), App(fn, srt, base, Add(SLen(s), k)))))
+		Forall([]string{"k"}, Imp(And(Le(SLen(s), k), Lt(k, n)), Eq(App(fn, srt, base, k), App(fn, srt, SBase(t), Add(SOff(t), Sub(k, SLen(s)))))), App(fn, srt, base, k))))
 	r := MkSlice(base, I(0), n, c)
 	// appending nothing returns the original slice
 	return Ite(Eq(SLen(t), I(0)), s, r)
@@ -986,7 +1008,7 @@ func (ex *Exec) builtinCopy(e *ast.CallExpr) Val {
 	hi := Add(lo, n)
 	ex.assume(And(Lt(I(1), nb),
 		Forall([]string{"k"}, Imp(Or(Lt(k, lo), Le(hi, k)), Eq(App(fn, srt, nb, k), App(fn, srt, SBase(dst.T), k))), App(fn, srt, nb, k)),
-		Forall([]string{"k"}, Imp(And(Le(I(0), k), Lt(k, n)), Eq(App(fn, srt, nb, Add(lo, k)), App(fn, srt, SBase(src.T), Add(SOff(src.T), k)))), App(fn, srt, nb, Add(lo, k)))))
+		Forall([]string{"k"}, Imp(And(Le(lo, k), Lt(k, hi)), Eq(App(fn, srt, nb, k), App(fn, srt, SBase(src.T), Add(SOff(src.T), Sub(k, lo))))), App(fn, srt, nb, k))))
 	ex.store(root, Val{MkSlice(nb, SOff(rv.T), SLen(rv.T), SCap(rv.T)), rv.Typ})
 	ex.stores["copy into "+root.str] = true
 	return Val{n, typInt}
